@@ -14,6 +14,8 @@ Driver for C14.  A case is a history on one plugin instance:
   entry <be> <ann> <v2> <s0> <q0> <m0> <n> (<declares + 2·no-status> <req> <lim> <mem>)*
                        one pod through all six entry paths of the protocol package (ann = annotation shape 0..7,
                        5 = the webhook's dump of this pod), cgroup v1/v2, initial file contents s0 q0 m0
+  late <s0> <q0> <m0>  the reconciler's pod-level pass on the pod of the last `entry` whose cgroup dir was missing at a first
+                       pass and then created with these contents (same values resubmitted; the files must be written)
   cb <0|1>             rule callback (0 = node SLO, 1 = node meta) on the pod of the last `entry` as an existing pod
   cricreate <period quota shares mem cpus mems> <k> <period quota shares mem cpus mems>
                        runtime-proxy CreateContainer: resources of the request, hook outcome k (0 no response, 1 response
@@ -182,6 +184,15 @@ def stepLine (st : St) (line : String) : St :=
         let e : Entry := { be := be ≠ 0, ann := a, v2 := v2 ≠ 0, s0 := s0, q0 := q0, m0 := m0, pod := pod, ids := ids }
         { st with out := st.out ++ runEntry r e, last := some e, cb := none }
     | _ => emit ["bad-op"]
+  | ["late", s0, q0, m0] =>
+    -- the pod cgroup of the last `entry` pod did not exist at the first reconcile; the kubelet then created it with the
+    -- given contents and the reconciler ran again with the same values: the files hold what a first run on them gives
+    match int? s0, int? q0, int? m0, st.last with
+    | some s0, some q0, some m0, some e =>
+      let (_, _, cfg) := cfgOf r
+      let oR := podEntry stdConsts cfg e.be (podFromReconciler e.pod e.ann)
+      emit [s!"late pod {showFiles (applyOut e.v2 (initFiles e.v2 s0 q0 m0) oR)}"]
+    | _, _, _, _ => emit ["bad-op"]
   | ["cb", m] =>
     match int? m, st.last with
     | some _, some e =>
